@@ -31,6 +31,11 @@ type Cfg struct {
 	NullSender bool     `json:"nullSender"`
 	Mt         int      `json:"mt"`
 	List       []string `json:"list"`
+	Rw         []string `json:"rw"`    // recipients that reach the queue rewritten (effective != original)
+	Utf8       bool     `json:"utf8"`  // SMTPUTF8 message
+	Chain      bool     `json:"chain"` // the bounce pipeline routes into a second real queue
+	ErrText    string   `json:"errtext"` // "", "multiline", "nonascii": text of the scripted SMTP errors
+	Idn        bool     `json:"idn"`     // recipients live in an internationalized domain
 }
 
 type Step struct {
@@ -39,6 +44,30 @@ type Step struct {
 	Res   string            `json:"res"`
 	St    map[string]string `json:"st"`
 	Rcpts []string          `json:"rcpts"`
+	Stage string            `json:"stage"`
+}
+
+// BouncePlanOf scripts how each report hand-over ends.
+func BouncePlanOf(h []Step) []scripted.BouncePlan {
+	var out []scripted.BouncePlan
+	for _, s := range h {
+		if s.A != "Dsn" {
+			continue
+		}
+		var p scripted.BouncePlan
+		switch s.Stage {
+		case "start":
+			p.Start = "temp"
+		case "rcpt":
+			p.Rcpt = "perm"
+		case "body":
+			p.Body = "temp"
+		case "commit":
+			p.Commit = "unspec"
+		}
+		out = append(out, p)
+	}
+	return out
 }
 
 type Behaviour struct {
@@ -70,9 +99,47 @@ func PlanOf(h []Step) []scripted.AttemptPlan {
 }
 
 const dom = "@example.org"
+const idnDomU = "@пример.example"
+const idnDomA = "@xn--e1afmkfd.example"
 
-func addr(id string) string { return id + dom }
-func idOf(a string) string  { return strings.TrimSuffix(a, dom) }
+var useIdn bool // set per behaviour (behaviours run sequentially in a process)
+
+func addr(id string) string {
+	if useIdn {
+		return id + idnDomU
+	}
+	return id + dom
+}
+
+// effAddr is the address a rewritten recipient has inside the queue.
+func effAddr(id string) string {
+	if useIdn {
+		return id + "-eff" + idnDomU
+	}
+	return id + "-eff" + dom
+}
+
+func stripDom(a string) string {
+	for _, d := range []string{dom, idnDomU, idnDomA} {
+		if strings.HasSuffix(a, d) {
+			return strings.TrimSuffix(a, d)
+		}
+	}
+	return a
+}
+
+// idOf maps an address seen at the target boundary to the abstract recipient.
+func idOf(a string) string { return strings.TrimSuffix(stripDom(a), "-eff") }
+
+// reportID maps an address listed in a failure report: the address the client supplied
+// gives the recipient id, the effective (rewritten) one is marked "eff:".
+func reportID(a string) string {
+	a = stripDom(a)
+	if strings.HasSuffix(a, "-eff") {
+		return "eff:" + strings.TrimSuffix(a, "-eff")
+	}
+	return a
+}
 
 const retryDelay = time.Minute
 
@@ -91,14 +158,59 @@ func runBehaviour(t *testing.T, b Behaviour, w *bufio.Writer) {
 		t.Fatal(err)
 	}
 	defer os.RemoveAll(dir)
+	useIdn = b.Cfg.Idn
+	switch b.Cfg.ErrText {
+	case "multiline":
+		scripted.MsgSuffix = "\r\nsecond line\nthird line"
+	case "nonascii":
+		scripted.MsgSuffix = " \u2014 \u043e\u0448\u0438\u0431\u043a\u0430"
+	default:
+		scripted.MsgSuffix = ""
+	}
+	defer func() { scripted.MsgSuffix = ""; useIdn = false }()
 	synctest.Test(t, func(t *testing.T) {
 		tr := vtrace.New(w, b.ID)
+		rw := map[string]bool{}
+		for _, r := range b.Cfg.Rw {
+			rw[r] = true
+		}
 		tr.Emit("Cfg", vtrace.Ev{"partial": b.Cfg.Partial, "bounce": b.Cfg.Bounce,
-			"nullSender": b.Cfg.NullSender, "mt": b.Cfg.Mt, "list": b.Cfg.List})
+			"nullSender": b.Cfg.NullSender, "mt": b.Cfg.Mt, "list": b.Cfg.List,
+			"rw": append([]string{}, b.Cfg.Rw...), "utf8": b.Cfg.Utf8, "chain": b.Cfg.Chain,
+			"idn": b.Cfg.Idn, "errtext": b.Cfg.ErrText})
 		tgt := &scripted.Target{Tr: tr, Plan: PlanOf(b.Hist), Partial: b.Cfg.Partial, ID: idOf}
 		var bounce module.DeliveryTarget
+		from := "sender@example.com"
+		if b.Cfg.NullSender {
+			from = ""
+		}
+		var q2 *queue.Queue
 		if b.Cfg.Bounce {
-			bounce = &scripted.Bounce{Tr: tr, ID: idOf}
+			bn := &scripted.Bounce{Tr: tr, ID: reportID, Fail: BouncePlanOf(b.Hist), Sender: from,
+				OrigSubject: "verif-subject-" + itoa(b.ID)}
+			if b.Cfg.Chain {
+				// the bounce pipeline ends in a second real queue whose own target rejects everything;
+				// that queue must never produce a report about a report
+				dir2, err := os.MkdirTemp(workDir(), "spool2")
+				if err != nil {
+					t.Fatal(err)
+				}
+				defer os.RemoveAll(dir2)
+				silent := vtrace.New(nil, b.ID)
+				t2 := &scripted.Target{Tr: silent, Plan: []scripted.AttemptPlan{{Start: "perm"}, {Start: "perm"}, {Start: "perm"}}}
+				b2 := &reportSink{tr: tr}
+				q2, err = queue.VerifNewQueue(queue.VerifConfig{
+					Location: dir2, Target: t2, Bounce: b2, MaxTries: 2, MaxParallelism: 1,
+					InitialRetryTime: retryDelay, RetryTimeScale: 1, PostInitDelay: 0,
+					Hostname: "mx.example.org", AutogenMsgDomain: "example.org",
+					Log: log.Logger{Out: log.NopOutput{}},
+				})
+				if err != nil {
+					t.Fatal(err)
+				}
+				bn.Next = q2
+			}
+			bounce = bn
 		}
 		q, err := queue.VerifNewQueue(queue.VerifConfig{
 			Location: dir, Target: tgt, Bounce: bounce, MaxTries: b.Cfg.Mt, MaxParallelism: 1,
@@ -109,12 +221,9 @@ func runBehaviour(t *testing.T, b Behaviour, w *bufio.Writer) {
 		if err != nil {
 			t.Fatal(err)
 		}
-		from := "sender@example.com"
-		if b.Cfg.NullSender {
-			from = ""
-		}
 		ctx := context.Background()
-		meta := &module.MsgMetadata{ID: "msg" + itoa(b.ID), OriginalFrom: from, SMTPOpts: smtp.MailOptions{}}
+		meta := &module.MsgMetadata{ID: "msg" + itoa(b.ID), OriginalFrom: from,
+			SMTPOpts: smtp.MailOptions{UTF8: b.Cfg.Utf8}, OriginalRcpts: map[string]string{}}
 		d, err := q.Start(ctx, meta, from)
 		if err != nil {
 			t.Fatal(err)
@@ -122,7 +231,12 @@ func runBehaviour(t *testing.T, b Behaviour, w *bufio.Writer) {
 		seen := map[string]bool{}
 		distinct := []string{}
 		for _, r := range b.Cfg.List {
-			if err := d.AddRcpt(ctx, addr(r), smtp.RcptOptions{}); err != nil {
+			a := addr(r)
+			if rw[r] {
+				a = effAddr(r)
+				meta.OriginalRcpts[a] = addr(r)
+			}
+			if err := d.AddRcpt(ctx, a, smtp.RcptOptions{}); err != nil {
 				t.Fatal(err)
 			}
 			if !seen[r] {
@@ -131,7 +245,7 @@ func runBehaviour(t *testing.T, b Behaviour, w *bufio.Writer) {
 			}
 		}
 		hdr := textproto.Header{}
-		hdr.Add("Subject", "verif")
+		hdr.Add("Subject", "verif-subject-"+itoa(b.ID))
 		hdr.Add("From", "<sender@example.com>")
 		if err := d.Body(ctx, hdr, buffer.MemoryBuffer{Slice: []byte("hello\r\n")}); err != nil {
 			t.Fatal(err)
@@ -151,7 +265,19 @@ func runBehaviour(t *testing.T, b Behaviour, w *bufio.Writer) {
 		files := spoolFiles(dir)
 		tr.Emit("Quiesced", vtrace.Ev{"spoolEmpty": len(files) == 0, "files": append([]string{}, files...)})
 		q.Close()
+		if q2 != nil {
+			q2.Close()
+		}
 	})
+}
+
+// reportSink is the bounce target of the second queue in chain mode: anything arriving
+// here is a report about a report.
+type reportSink struct{ tr *vtrace.Tracer }
+
+func (s *reportSink) Start(ctx context.Context, m *module.MsgMetadata, from string) (module.Delivery, error) {
+	s.tr.Emit("Dsn2", vtrace.Ev{"from": from})
+	return nil, scripted.ErrFor("perm", "report sink")
 }
 
 func itoa(i int) string {
